@@ -154,6 +154,7 @@ fn drive_mut<'a, const N: usize, P: Pad>(
 }
 
 pub fn iters<const N: usize, P: Pad>(ctx: &mut Ctx) {
+    ctx.panic_props = vec!["C08", "C11", "C07"];
     let routes: Vec<u8> = ctx.args.list("routes", &[0, 1, 2]).iter().map(|&x| x as u8).collect();
     let starts = if N == 0 { 1 } else { N };
     let _ = items_off::<N, P>();
